@@ -631,6 +631,11 @@ def _raw_scale(tap):
 def _compare(run, scope, variant, out1, out2, forced, plan, h0=None, raw_scale=0.0):
     """Oracle (ii): run 2 (evaluate) reproduces run 1 from step `forced` on."""
     ulp = 16 * 1.1920929e-07 * raw_scale
+    # a real network in train mode (batch statistics in its normalisation layers) replayed in ANOTHER batch layout
+    # (k-fold expanded rows instead of B rows expanded after the encoder): the statistics are sums over a different
+    # number of (duplicate) rows, and on graphs of 4-9 nodes the normalisation amplifies that float32 difference to
+    # 1e-4 in a log-probability (thorough soak, seed 62: 2.5e-4).  Same-layout replays keep the tight band.
+    lay = 25.0 if (plan.get("train_mode") and variant != "same" and plan.get("kind") != "scripted") else 1.0
     a1 = out1["actions"]
     ll1, ll2 = out1["log_likelihood"].detach().double(), out2["log_likelihood"].detach().double()
     R, T1 = a1.shape
@@ -646,7 +651,7 @@ def _compare(run, scope, variant, out1, out2, forced, plan, h0=None, raw_scale=0
             for t in range(forced, max(T1, T2)):
                 x = float(ll1[i, t]) if t < T1 else 0.0
                 y = float(ll2[i, t]) if t < T2 else 0.0
-                if abs(x - y) > tol(x, 0.0) * 4 + ulp:
+                if abs(x - y) > tol(x, 0.0) * 4 * lay + ulp:
                     run.violate(scope, "evaluate_roundtrip", f"[{variant}] row {i} step {t}: decode-time log-prob "
                                 f"{x!r} != evaluate-mode log-prob {y!r} of the same action", constraint="per_step",
                                 variant=variant, row=i, step=t, got=y, ref=x, mode=plan["mode"], k=plan["k"],
@@ -656,7 +661,7 @@ def _compare(run, scope, variant, out1, out2, forced, plan, h0=None, raw_scale=0
         s2 = ll2[:, forced:].sum(-1)
         for i in range(R):
             x, y = float(ll1[i]), float(s2[i])
-            if abs(x - y) > tol(x, 0.0, T) * 4 + ulp * T:
+            if abs(x - y) > tol(x, 0.0, T) * 4 * lay + ulp * T:
                 run.violate(scope, "evaluate_roundtrip", f"[{variant}] row {i}: decode-time log-likelihood {x!r} != "
                             f"evaluate-mode sum {y!r} over the same actions", constraint="sum", variant=variant,
                             row=i, got=y, ref=x, mode=plan["mode"], k=plan["k"], select_best=plan["select_best"],
@@ -675,7 +680,7 @@ def _compare(run, scope, variant, out1, out2, forced, plan, h0=None, raw_scale=0
         for i in range(R):
             x = float(e1[i])
             y = float(e2[i]) - (float(h0[i]) if (forced and h0 is not None) else 0.0)
-            if abs(x - y) > tol(x, 0.0, T) * 4 + ulp * T:
+            if abs(x - y) > tol(x, 0.0, T) * 4 * lay + ulp * T:
                 run.violate(scope, "evaluate_roundtrip", f"[{variant}] row {i}: entropy {x!r} at decode time, {y!r} in "
                             "evaluate mode (forced step excluded)", constraint="entropy", variant=variant, row=i,
                             got=y, ref=x, mode=plan["mode"], k=plan["k"])
